@@ -52,9 +52,14 @@ def import_history(ctx, b):
             if not line:
                 raise core.MachineryError("import_history %s/%d printed no result: %s" % (order, th, p.stdout[-500:]))
             runs[(order, th)] = json.loads(line[-1][len("IMPORT-HISTORY "):])
-    ref = runs[("late", 1)]["stages"][0]["probes"]
-    if not all(v["nonzero"] for v in ref.values()):
-        raise core.MachineryError("the gradual-underflow probes are already flushed in a fresh process: %s" % ref)
+    # reference: the first evaluation of each probe in the process that loads the least (the numpy probe runs before
+    # any part of the library is imported, the kernels' probes right after `import enspara.geometry.libdist`)
+    ref = {}
+    for st in runs[("late", 1)]["stages"]:
+        for name, v in st["probes"].items():
+            ref.setdefault(name, v)
+    if not runs[("late", 1)]["stages"][0]["probes"]["numpy/float64/1e-160-squared"]["nonzero"]:
+        raise core.MachineryError("the interpreter starts with gradual underflow switched off: %s" % ref)
     ctx.notes["import_history"] = {"modules_imported": runs[("late", 1)]["modules"],
                                    "import_errors": runs[("late", 1)]["import_errors"], "probes": sorted(ref)}
     for (order, th), r in sorted(runs.items()):
